@@ -20,6 +20,7 @@ import GqlProofs.Validate.OverlapWitness
 import GqlProofs.EndToEnd.Parsed
 import GqlProofs.EndToEnd.Loaded
 import GqlProofs.EndToEnd.ParsedSchemaTree
+import GqlProofs.EndToEnd.LoadedWP
 /-
   C08 — validation accepts exactly what the rules allow.
 
@@ -1772,8 +1773,97 @@ theorem C08_sources_iff_spec {Ls : Nat} {srcs : List (Bool × Bytes)} {sd : Sche
   have T := parseSchemas_treeHyps hsrc hps
   C08_parsed_loaded_iff_spec hl hprel T.scalars T.enums T.names hroots hp S
 
+
+/-! #### `Spec.wellParented` is a consequence of either side -/
+
+/-- the specification side: knownRootType, fragmentSpreadTypeExistence, fragmentsOnCompositeTypes,
+    fieldSelections and leafFieldSelections imply `Spec.wellParented` (on a schema with the loader's
+    invariants `WPSchema s`) -/
+theorem C08_wellParented_of_spec {s : Schema} (W : WPSchema s) (d : QueryDoc)
+    (h1 : Spec.knownRootType s d = true) (h2 : Spec.fragmentSpreadTypeExistence s d = true)
+    (h3 : Spec.fragmentsOnCompositeTypes s d = true) (h4 : Spec.fieldSelections s d = true)
+    (h5 : Spec.leafFieldSelections s d = true) : Spec.wellParented s d = true :=
+  wellParented_of_spec W d h1 h2 h3 h4 h5
+
+/-- the validator side: a document on which KnownRootType, KnownTypeNames, FragmentsOnCompositeTypes,
+    FieldsOnCorrectType and ScalarLeafs report nothing is well parented -/
+theorem C08_wellParented_of_rules {s : Schema} (W : WPSchema s) (hE : s.type? [] = none) (d : QueryDoc)
+    (r1 : validate [knownRootType] s d = .ok []) (r2 : validate [knownTypeNames] s d = .ok [])
+    (r3 : validate [fragmentsOnCompositeTypes] s d = .ok []) (r4 : validate [fieldsOnCorrectType] s d = .ok [])
+    (r5 : validate [scalarLeafs] s d = .ok []) : Spec.wellParented s d = true :=
+  wellParented_of_rules W d ((C08_KnownRootType s d).1 r1) ((C08_KnownTypeNames s d).1 r2).1
+    ((C08_FragmentsOnCompositeTypes s d hE).1 r3) r4 r5
+
+/-- every document that validates against a schema with the loader's invariants is well parented -/
+theorem C08_wellParented_of_valid {s : Schema} (W : WPSchema s) (hE : s.type? [] = none) (d : QueryDoc)
+    (hv : validate c08Rules s d = .ok []) : Spec.wellParented s d = true := by
+  have hall := (C08_rule_list_silent_iff c08Rules s d (by decide)).1 hv
+  exact C08_wellParented_of_rules W hE d (hall _ (by simp [c08Rules])) (hall _ (by simp [c08Rules]))
+    (hall _ (by simp [c08Rules])) (hall _ (by simp [c08Rules])) (hall _ (by simp [c08Rules]))
+
+/-- the capstone with `Spec.wellParented` discharged on both sides: `mk` builds the remaining
+    hypotheses from well-parentedness -/
+theorem C08_default_rules_iff_spec_wp (s : Schema) (d : QueryDoc) (W : WPSchema s) (hE : s.type? [] = none)
+    (mk : Spec.wellParented s d = true → C08Hyps s d) :
+    validate c08Rules s d = .ok [] ↔
+      ((Spec.specVerdicts s d).filter (fun p => !c08Uncovered.contains p.1)).all (·.2) = true := by
+  constructor
+  · intro hv
+    exact (C08_default_rules_iff_spec_partial s d (mk (C08_wellParented_of_valid W hE d hv))).1 hv
+  · intro hs
+    have hs' := hs
+    simp only [Spec.specVerdicts, c08Uncovered] at hs'
+    simp [List.filter, List.all] at hs'
+    obtain ⟨_, _, _, rootType, fields, leafs, _, _, _, _, typeEx, fragComp, _⟩ := hs'
+    exact (C08_default_rules_iff_spec_partial s d
+      (mk (C08_wellParented_of_spec W d rootType typeEx fragComp fields leafs))).2 hs
+
+/-- what is left of `C08SemanticHyps` once `Spec.wellParented` is derived -/
+structure C08ResidualHyps (s : Schema) (d : QueryDoc) : Prop where
+  selectRoot : subscriptionsSelectRoot s d = true
+  rootKeys : rootKeysConsistent s d = true
+  defaultedLocations : defaultedLocationsHarmless s d = true
+
+/-- **C08 END TO END, `Spec.wellParented` discharged.**  Schema sources → `ParseSchemas` → `load`; query
+    source → `parseQuery`.  The 26 rules report nothing iff the 27 predicates hold.  Hypotheses left:
+    the prelude is among the schema sources, the recorded non-object-root finding
+    (`rootTypesAreObjects s`), and `C08ResidualHyps s d`: the two hazards of SingleFieldSubscriptions
+    (`selectRoot`; `rootKeys`, a consequence of field merging §5.3.2, the one rule outside `c08Rules`)
+    and the recorded finding about VariablesInAllowedPosition (`defaultedLocations`). -/
+theorem C08_sources_iff_spec_wp {Ls : Nat} {srcs : List (Bool × Bytes)} {sd : SchemaDoc} {s : Schema}
+    (hsrc : ∀ src ∈ srcs, Lexer.Utf8.valid src.2) (hps : Parser.parseSchemas Ls srcs = .ok sd)
+    (hl : load sd = .ok s) (hprel : PreludeDeclared sd) (hroots : Gql.Spec.rootTypesAreObjects s = true)
+    {L : Nat} {inp : Bytes} {d : QueryDoc} (hp : Parser.parseQuery L inp = .ok d) (R : C08ResidualHyps s d) :
+    validate c08Rules s d = .ok [] ↔
+      ((Spec.specVerdicts s d).filter (fun p => !c08Uncovered.contains p.1)).all (·.2) = true :=
+  have T := parseSchemas_treeHyps hsrc hps
+  have LH := loaded_hyps hl hprel T.scalars T.enums T.names hroots
+  C08_default_rules_iff_spec_wp s d (loaded_wpSchema hl hprel T.unions hroots) LH.noEmptyTypeName
+    (fun hwp => C08Hyps_of_parsed hp LH
+      { wellParented := hwp, selectRoot := R.selectRoot, rootKeys := R.rootKeys,
+        defaultedLocations := R.defaultedLocations })
+
+/-- the same for a schema document given as a tree (the tree-shape hypotheses explicit) -/
+theorem C08_parsed_loaded_iff_spec_wp {sd : SchemaDoc} {s : Schema} (hl : load sd = .ok s)
+    (hprel : PreludeDeclared sd) (hks : KindFieldless .scalar sd) (hke : KindFieldless .enum sd)
+    (hku : KindFieldless .union sd) (hn : NamesNonEmpty sd) (hroots : Gql.Spec.rootTypesAreObjects s = true)
+    {L : Nat} {inp : Bytes} {d : QueryDoc} (hp : Parser.parseQuery L inp = .ok d) (R : C08ResidualHyps s d) :
+    validate c08Rules s d = .ok [] ↔
+      ((Spec.specVerdicts s d).filter (fun p => !c08Uncovered.contains p.1)).all (·.2) = true :=
+  have LH := loaded_hyps hl hprel hks hke hn hroots
+  C08_default_rules_iff_spec_wp s d (loaded_wpSchema hl hprel hku hroots) LH.noEmptyTypeName
+    (fun hwp => C08Hyps_of_parsed hp LH
+      { wellParented := hwp, selectRoot := R.selectRoot, rootKeys := R.rootKeys,
+        defaultedLocations := R.defaultedLocations })
+
 end EndToEnd
 
+#print axioms C08_wellParented_of_spec
+#print axioms C08_wellParented_of_rules
+#print axioms C08_wellParented_of_valid
+#print axioms C08_default_rules_iff_spec_wp
+#print axioms C08_sources_iff_spec_wp
+#print axioms C08_parsed_loaded_iff_spec_wp
 #print axioms C08_sources_iff_spec
 #print axioms C08DocHyps_of_parsed
 #print axioms C08_parsed_loaded_iff_spec
